@@ -34,5 +34,4 @@ def run(tier, seed, t0):
 
 
 def replay(path):
-    print("C11 cases are deterministic; re-run ./vcheck C11 (the case id names the input)")
-    sys.exit(2)
+    vlib.replay_enum(PID, build(), path, env=None)
